@@ -188,6 +188,40 @@ class CFG:
         return mod
 
 
+    def modified_fields(self, blocks):
+        """local -> set of first-level field indices written / mutably borrowed inside `blocks`, or None when the local is (also) modified as a
+        whole.  `uext.keywords.insert(..)` in a loop modifies field 0 of `uext` only: what an earlier loop established about field 1 stays true."""
+        out = {}
+
+        def note(pl):
+            if any(e == '*' for e in pl['p']):
+                return
+            l = pl['l']
+            first = pl['p'][0] if pl['p'] else None
+            if isinstance(first, dict) and 'f' in first and out.get(l, set()) is not None:
+                out.setdefault(l, set()).add(first['f'])
+            else:
+                out[l] = None
+        for bi in blocks:
+            b = self.blocks[bi]
+            for s in b['stmts']:
+                if s['k'] in ('assign', 'setdiscr'):
+                    note(s['lhs'])
+                if s['k'] == 'assign' and s['rv']['k'] in ('ref', 'rawptr') and (s['rv']['k'] == 'rawptr' or s['rv'].get('mut')):
+                    note(s['rv']['p'])
+                if s['k'] == 'assign':
+                    # a field moved out of the local leaves it partially moved: treat as a modification of that field
+                    for o in ([s['rv'].get('o')] if s['rv']['k'] in ('use', 'cast') else s['rv'].get('ops', []) if s['rv']['k'] == 'agg' else []):
+                        if isinstance(o, dict) and 'move' in o and o['move']['p']:
+                            note(o['move'])
+            t = b['term']
+            if t['k'] == 'call':
+                note(t['dest'])
+                for a in t['args']:
+                    if isinstance(a, dict) and 'move' in a and a['move']['p']:
+                        note(a['move'])
+        return out
+
     # ------------------------------------------------------------------------------------------------ liveness
     def _uses_defs(self, bi):
         """(use-before-def set, def set) of whole locals for one block; any projected or borrowed mention counts as a use"""
